@@ -242,6 +242,35 @@ func escRuns(r *Run, letters []string, mods []string, regionKind string) {
 	// escape letters in front of the call form of a modifier (no variable): the letters apply to the modifier's result
 	// exactly as to a variable holding it (a relation on the real engine alone)
 	callFormLetters(r, letters)
+	// a letter that FOLLOWS a bare f / F directive (no precision, or a precision without the dot) is applied: on a
+	// value that is no number the f / F directive changes nothing, so the tag prints what the letter alone prints
+	for _, l := range letters {
+		k0, err0, pan0 := regTpl("{%"+l+"= v %}", true)
+		if err0 != nil || pan0 != "" {
+			continue
+		}
+		mkc := func() *dyntpl.Ctx { c := dyntpl.NewCtx(); c.SetString("v", `a b&c<d>"e'/f?g=%\`); return c }
+		plain := renderSafe(k0, mkc())
+		for _, d := range []string{"f" + l, "F" + l, "f2" + l, "F9" + l, "f" + l + l, l + "f", "ff" + l, "f.2" + l} {
+			k, err, pan := regTpl("{%"+d+"= v %}", true)
+			var got rendered
+			if err == nil && pan == "" {
+				got = renderSafe(k, mkc())
+			}
+			want := string(plain.Out)
+			if d == "f"+l+l {
+				k2, _, _ := regTpl("{%"+l+l+"= v %}", true)
+				want = string(renderSafe(k2, mkc()).Out)
+			}
+			sig := "letter-after-f " + d
+			r.Count(sig, true)
+			r.Dist["letter-after-f"]++
+			if err != nil || pan != "" || got.Err != nil || got.Panic != "" || string(got.Out) != want {
+				r.Violate(sig, "an escape letter next to a bare f / F directive is not applied (the value is printed as if the letter were not there)",
+					map[string]any{"source": "{%" + d + "= v %}", "output": string(got.Out), "expected": want, "letter_alone": "{%" + l + "= v %}", "error": got.ErrStr()})
+			}
+		}
+	}
 	// the same modifiers in the pipeline of a ctx tag (a separate copy of the print tag's pipeline), after modifiers and
 	// tags that leave a numeric first argument behind
 	for _, m := range mods {
